@@ -17,7 +17,7 @@ OVERWRITE = {
     "vec_znx_lsh", "vec_znx_rotate", "vec_znx_automorphism", "vec_znx_mul_xp_minus_one", "vec_znx_switch_ring", "vec_znx_copy", "vec_znx_big_from_small",
     "vec_znx_big_add_into", "vec_znx_big_add_small_into", "vec_znx_big_sub", "vec_znx_big_sub_small_a", "vec_znx_big_sub_small_b", "vec_znx_big_negate",
     "vec_znx_big_normalize", "vec_znx_big_automorphism", "vec_znx_dft_apply", "vec_znx_idft_apply", "vec_znx_idft_apply_tmpa", "vec_znx_dft_add_into",
-    "vec_znx_dft_sub", "vec_znx_dft_copy", "vec_znx_dft_zero", "svp_apply_dft", "svp_apply_dft_to_dft", "vec_znx_fill_uniform", "vec_znx_fill_normal",
+    "vec_znx_dft_sub", "vec_znx_dft_copy", "vec_znx_dft_zero", "svp_apply_dft", "svp_apply_dft_to_dft", "vec_znx_fill_uniform", "vec_znx_fill_normal", "vec_znx_merge_rings",
 }
 
 
